@@ -86,7 +86,7 @@ impl Model {
 ///  3  send(tx0) | tx1 = tx0.clone() | send(tx1) | drop(tx1) | drop(tx0) | recv(rx0)
 ///  4  send(tx0) | ux0 = rx0.into_single() | view(ux0) | rx0 = ux0.into_multi() | recv(rx0) | rx1 = rx0.clone()
 ///  5  send(tx0) | recv(rx0) | drop(rx0) | rx1 = rx0.add_stream() | recv(rx1) | drop(rx1)  (broadcast)
-pub fn history<F: Fl, const ALPHA: u8, const DEPTH: usize>(cap: u64, n: u8, teardown: bool) {
+pub fn history<F: Fl, const ALPHA: u8, const SK: u8, const DEPTH: usize>(cap: u64, n: u8, teardown: bool) {
     payload::reset();
     sched::configure(0, 0, 0, 0);
     let mut w = World::<F>::new(cap);
@@ -96,17 +96,24 @@ pub fn history<F: Fl, const ALPHA: u8, const DEPTH: usize>(cap: u64, n: u8, tear
     // operations recur in a mixed order); the solver decides for every step whether it is executed
     // or skipped, i.e. the harness covers every sub-sequence of the skeleton.  A free choice of
     // operation at every step (6 arms x depth 4 on symbolic handle state) did not fit into memory.
-    let skel: [u8; 10] = match ALPHA {
+    let skel: [u8; 10] = match (ALPHA, SK) {
+        // second skeletons: the structural step comes after the ring has wrapped
+        //  send recv0 send clone recv1 recv0 send recv1 drop1 recv0
+        (1, 1) => [0, 1, 0, 2, 3, 1, 0, 3, 4, 1],
+        //  send recv0 send add recv1 recv0 send recv1 unsub send
+        (2, 1) => [0, 1, 0, 2, 3, 1, 0, 3, 4, 0],
+        //  send recv0 send add recv1 recv0 drop0 send drop1 send
+        (5, 1) => [0, 1, 0, 3, 4, 1, 2, 0, 5, 0],
         //  send send clone recv0 recv1 send drop1 recv0 send recv0
-        1 => [0, 0, 2, 1, 3, 0, 4, 1, 0, 1],
+        (1, _) => [0, 0, 2, 1, 3, 0, 4, 1, 0, 1],
         //  send send add  recv0 recv1 send unsub send recv0 send
-        2 => [0, 0, 2, 1, 3, 0, 4, 0, 1, 0],
+        (2, _) => [0, 0, 2, 1, 3, 0, 4, 0, 1, 0],
         //  send clone send1 drop1 recv send drop0 recv recv send
-        3 => [0, 1, 2, 3, 5, 0, 4, 5, 5, 0],
+        (3, _) => [0, 1, 2, 3, 5, 0, 4, 5, 5, 0],
         //  send single view send view multi clone recv0 single recv0
-        4 => [0, 1, 2, 0, 2, 3, 5, 4, 1, 4],
+        (4, _) => [0, 1, 2, 0, 2, 3, 5, 4, 1, 4],
         //  send add recv0 drop0 send send recv1 send drop1 send
-        _ => [0, 3, 1, 2, 0, 0, 4, 0, 5, 0],
+        (_, _) => [0, 3, 1, 2, 0, 0, 4, 0, 5, 0],
     };
     let mut wrapped = false;
     let mut saw_full = false;
@@ -382,7 +389,10 @@ use crate::scen_life::Idle;
 
 macro_rules! hist {
     ($name:ident, $hk:ident, $f:ty, $alpha:literal, $depth:literal, $cap:literal, $n:literal, $td:literal) => {
-        crate::mq_harness!($name, $hk, Idle, history::<$f, $alpha, $depth>($cap, $n, $td));
+        crate::mq_harness!($name, $hk, Idle, history::<$f, $alpha, 0, $depth>($cap, $n, $td));
+    };
+    ($name:ident, $hk:ident, $f:ty, $alpha:literal, sk $sk:literal, $depth:literal, $cap:literal, $n:literal, $td:literal) => {
+        crate::mq_harness!($name, $hk, Idle, history::<$f, $alpha, $sk, $depth>($cap, $n, $td));
     };
 }
 
@@ -394,6 +404,9 @@ hist!(c09_bc_a3, hk_c09_bc_a3, BcB, 3, 10, 2, 2, false);
 hist!(c09_mp_a4, hk_c09_mp_a4, MpB, 4, 10, 2, 2, false);
 hist!(c09_bc_a4, hk_c09_bc_a4, BcB, 4, 10, 1, 1, false);
 hist!(c09_bc_a5, hk_c09_bc_a5, BcB, 5, 10, 2, 2, false);
+hist!(c09_bc_a2w, hk_c09_bc_a2w, BcB, 2, sk 1, 10, 1, 1, false);
+hist!(c09_mp_a1w, hk_c09_mp_a1w, MpB, 1, sk 1, 10, 1, 1, false);
+hist!(c09_bc_a5w, hk_c09_bc_a5w, BcB, 5, sk 1, 10, 2, 2, false);
 
 macro_rules! fd {
     ($name:ident, $hk:ident, $f:ty, $cap:literal, $n:literal) => {
